@@ -19,7 +19,7 @@ use remoc::robs::{
 };
 use serde::{Deserialize, Serialize};
 
-use super::robs_common::{Coll, EvClass, GenOpts, State, View};
+use super::robs_common::{Coll, EvClass, GenOpts, Held, State, View};
 use crate::kit;
 
 pub fn draw_val() -> u16 {
@@ -328,6 +328,9 @@ impl Coll for ObservableVec<u16> {
     async fn resubscribe(m: &Self::Mirror, incremental: bool, buffer: usize) -> Option<Result<Self::Sub, RecvError>> {
         Some(if incremental { m.subscribe_incremental(buffer).await } else { m.subscribe(buffer).await })
     }
+    async fn hold(m: &Self::Mirror) -> Option<Box<dyn Held + '_>> {
+        m.borrow().await.ok().map(|g| Box::new(g) as Box<dyn Held + '_>)
+    }
     fn take_initial(sub: &mut Self::Sub) -> Option<Vec<u16>> {
         sub.take_initial()
     }
@@ -580,6 +583,9 @@ impl Coll for ObservableVecDeque<u16> {
     }
     async fn resubscribe(m: &Self::Mirror, incremental: bool, buffer: usize) -> Option<Result<Self::Sub, RecvError>> {
         Some(if incremental { m.subscribe_incremental(buffer).await } else { m.subscribe(buffer).await })
+    }
+    async fn hold(m: &Self::Mirror) -> Option<Box<dyn Held + '_>> {
+        m.borrow().await.ok().map(|g| Box::new(g) as Box<dyn Held + '_>)
     }
     fn take_initial(sub: &mut Self::Sub) -> Option<VecDeque<u16>> {
         sub.take_initial()
@@ -1116,6 +1122,9 @@ impl Coll for OMap {
     async fn resubscribe(m: &Self::Mirror, incremental: bool, buffer: usize) -> Option<Result<Self::Sub, RecvError>> {
         Some(if incremental { m.subscribe_incremental(buffer).await } else { m.subscribe(buffer).await })
     }
+    async fn hold(m: &Self::Mirror) -> Option<Box<dyn Held + '_>> {
+        m.borrow().await.ok().map(|g| Box::new(g) as Box<dyn Held + '_>)
+    }
     fn take_initial(sub: &mut Self::Sub) -> Option<HashMap<Key, u16>> {
         sub.take_initial()
     }
@@ -1379,6 +1388,9 @@ impl Coll for OSet {
     }
     async fn resubscribe(m: &Self::Mirror, incremental: bool, buffer: usize) -> Option<Result<Self::Sub, RecvError>> {
         Some(if incremental { m.subscribe_incremental(buffer).await } else { m.subscribe(buffer).await })
+    }
+    async fn hold(m: &Self::Mirror) -> Option<Box<dyn Held + '_>> {
+        m.borrow().await.ok().map(|g| Box::new(g) as Box<dyn Held + '_>)
     }
     fn take_initial(sub: &mut Self::Sub) -> Option<HashSet<Key>> {
         sub.take_initial()
